@@ -433,7 +433,7 @@ func enumerate(obj interface{}) (out string) {
 func init() {
 	setTier("C10", 50000, 300, 2500000, 1800)
 	levelOf["C10"] = "exploration"
-	ruleOf["C10"] = "facet A (scenario methods): every exported method of every collection type, found by reflection, on an empty and on a populated instance — one simulated run per (type, method, populated) cell, enumerated exhaustively each tier; facet B/C (scenario lin): one run = one seeded concurrent history (type, constructor variant, max size, prefill, 2-4 tasks x 2-5 point ops over 2-4 keys with unique values) under one seeded schedule, checked by porcupine against the same type executed sequentially, with ThreadSanitizer watching every access (plus: colliding key sets, a neighbour instance, scenario cross = merges of two instances into each other, scenario whole = a whole-structure operation next to writers, structural integrity read-out at quiescence); non-trivial = a context switch happened inside a recorded operation (lin) or the cell was executed (methods); distinct = distinct fingerprint of (switch sequence, history outcome) plus distinct method cells"
+	ruleOf["C10"] = "facet A (scenario methods): every exported method of every collection type, found by reflection, on an empty, a populated, a bounded-and-full instance (SetMax / SetCapacity) and one whose caller-supplied callbacks panic (comparators, the queues' Failed/Overflowed) — one simulated run per (type, method, state) cell, enumerated exhaustively each tier; facet B/C (scenario lin): one run = one seeded concurrent history (type, constructor variant, max size, prefill, 2-4 tasks x 2-5 point ops over 2-4 keys with unique values) under one seeded schedule, checked by porcupine against the same type executed sequentially, with ThreadSanitizer watching every access (plus: colliding key sets, a neighbour instance, scenario cross = merges of two instances into each other, scenario whole = a whole-structure operation next to writers, structural integrity read-out at quiescence); non-trivial = a context switch happened inside a recorded operation (lin) or the cell was executed (methods); distinct = distinct fingerprint of (switch sequence, history outcome) plus distinct method cells"
 	assumptions := []string{
 		"reference model = the same collection type executed sequentially outside the simulation: the verdict is equivalence to SOME sequential execution of this code; whether the sequential behaviour is the right dictionary is C09/C12 (not applicable to this technique)",
 		"preemption between any two statements of util/hmap, util/list, util/queue and inside lock operations, not inside a statement; ThreadSanitizer sees all accesses, with happens-before edges only from the simulated Mutex/Cond/WaitGroup and goroutine creation",
